@@ -2,6 +2,8 @@ package erpc
 
 import (
 	"io"
+	"sort"
+	"sync"
 	"net"
 	"time"
 
@@ -345,7 +347,7 @@ func VX_C06_PoolAfterOversize(args []int) {
 func VX_C09_RedialRetry(args []int) {
 	var log []string
 	pl := newVxPlugin("h", &log)
-	p := NewPeer(PeerConfig{RedialTimes: 1}, pl)
+	p := NewPeer(PeerConfig{RedialTimes: 1, RedialInterval: vxRedialEvery}, pl)
 	var conns []*vxConn
 	VXSetDialHook(func(addr string) (net.Conn, error) {
 		c := newVxConn("cli:"+string(rune('1'+len(conns))), addr)
@@ -604,7 +606,7 @@ func VX_C07_DialHooks(args []int) {
 		// an earlier dial hook names the session (SetID) before the verdict of the later one
 		plugins = []Plugin{&vxNamer{id: "user-7"}, pl}
 	}
-	p := NewPeer(PeerConfig{RedialTimes: int32(R)}, plugins...)
+	p := NewPeer(PeerConfig{RedialTimes: int32(R), RedialInterval: vxRedialEvery}, plugins...)
 	attempts := 0
 	good := false
 	var conns []*vxConn
@@ -789,35 +791,42 @@ func VX_C10_UnknownAfterSession(args []int) {
 	conn.feed(vxFrame(TypeCall, 1, "/nope", []byte("a")))
 	vxWaitIdle()
 	var hits []string
+	var hmu sync.Mutex
+	hit := func(h string) {
+		hmu.Lock()
+		hits = append(hits, h)
+		hmu.Unlock()
+	}
 	p.SetUnknownCall(func(ctx UnknownCallCtx) (interface{}, *Status) {
-		hits = append(hits, "call1:"+ctx.ServiceMethod())
+		hit("call1:" + ctx.ServiceMethod())
 		return []byte("u1"), nil
 	})
 	p.SetUnknownPush(func(ctx UnknownPushCtx) *Status {
-		hits = append(hits, "push1:"+ctx.ServiceMethod())
+		hit("push1:" + ctx.ServiceMethod())
 		return nil
 	})
 	conn.feed(vxFrame(TypeCall, 2, "/nope", []byte("b")))
 	conn.feed(vxFrame(TypePush, 3, "/nope_push", []byte("c")))
 	vxWaitIdle()
 	p.SetUnknownCall(func(ctx UnknownCallCtx) (interface{}, *Status) {
-		hits = append(hits, "call2:"+ctx.ServiceMethod())
+		hit("call2:" + ctx.ServiceMethod())
 		return []byte("u2"), nil
 	})
 	conn.feed(vxFrame(TypeCall, 4, "/nope", []byte("d")))
 	conn.feed(vxFrame(TypeCall, 5, "/known", []byte("e")))
 	vxWaitIdle()
-	vxAssert(len(hits) == 3 && hits[0] == "call1:/nope" && hits[1] == "push1:/nope_push" && hits[2] == "call2:/nope", "unregistered names reach the unknown-handler that is set at the time, also on sessions established earlier")
+	sort.Strings(hits) // frames of one batch are handled concurrently
+	vxAssert(len(hits) == 3 && hits[0] == "call1:/nope" && hits[1] == "call2:/nope" && hits[2] == "push1:/nope_push", "unregistered names reach the unknown-handler that is set at the time, also on sessions established earlier")
 	vxAssert(reg.calls == 1, "registered name reaches its handler only")
 	vxAssert(conn.nWrites() == 4, "[C03] four CALLs answered")
 	if conn.nWrites() == 4 {
-		codes := []int32{CodeNotFound, 0, 0, 0}
-		bodies := []string{"", "u1", "u2", "e"}
-		for k, w := range conn.writes {
+		codes := map[int32]int32{1: CodeNotFound, 2: 0, 4: 0, 5: 0}
+		bodies := map[int32]string{1: "", 2: "u1", 4: "u2", 5: "e"}
+		for _, w := range conn.writes {
 			m, err := vxParse(w)
-			vxAssert(err == nil && m.Status(true).Code() == codes[k], "Not Found before an unknown-handler is set, OK afterwards")
-			if err == nil && k > 0 {
-				vxAssert(string(vxBodyOf(m)) == bodies[k], "reply comes from the handler in force")
+			vxAssert(err == nil && m.Status(true).Code() == codes[m.Seq()], "Not Found before an unknown-handler is set, OK afterwards")
+			if err == nil && m.Seq() > 1 {
+				vxAssert(string(vxBodyOf(m)) == bodies[m.Seq()], "reply comes from the handler in force")
 			}
 		}
 	}
